@@ -46,6 +46,10 @@ func (p Params) Validate() error {
 		return fmt.Errorf("poolCreationFee must be positive: %s", p.PoolCreationFee.String())
 	}
 
+	if err := sdk.ValidateDenom(p.PoolCreationFee.Denom); err != nil {
+		return fmt.Errorf("poolCreationFee denom is invalid: %w", err)
+	}
+
 	if !p.TaxRate.GT(math.LegacyZeroDec()) || !p.TaxRate.LT(math.LegacyOneDec()) {
 		return fmt.Errorf("fee must be positive and less than 1: %s", p.TaxRate.String())
 	}
